@@ -119,6 +119,7 @@ type Analysis struct {
 	invokeSink func(site ssa.CallInstruction, inScope bool) []int
 	Taint  map[string]string // tainted cell -> why (one write site)
 	Raw    map[string]bool   // cells from which a sink is reached raw
+	cellOrigins map[string][]string // tainted cell -> marked origins that reach it
 	RawWhy map[string]string // raw cell -> the effect through which it reaches a sink
 	Prim   map[string]bool   // transparent cells (locals, closure variables, call-back parameters) that hold a marked origin directly
 	funcs  []*ssa.Function
@@ -302,7 +303,8 @@ func (a *Analysis) setDep(fn *ssa.Function, v ssa.Value, d Deps) bool {
 	if len(d) == 0 {
 		return false
 	}
-	if !Carrier(v.Type()) {
+	if _, isRange := v.(*ssa.Range); !isRange && !Carrier(v.Type()) {
+		// (the iterator of a map/string range has an opaque type; it carries what the ranged value carries)
 		return false
 	}
 	cur := a.dep[fn][v]
@@ -909,6 +911,42 @@ func (a *Analysis) solveCells() {
 			}
 		}
 	}
+	// origins per cell
+	a.cellOrigins = map[string][]string{}
+	has := map[string]map[string]bool{}
+	for ch := true; ch; {
+		ch = false
+		for _, e := range a.Closed {
+			if e.Kind != "write" {
+				continue
+			}
+			m := has[e.Cell]
+			if m == nil {
+				m = map[string]bool{}
+				has[e.Cell] = m
+			}
+			for at := range e.Deps {
+				if at[0] == 'S' && !m[at[2:]] {
+					m[at[2:]] = true
+					ch = true
+				}
+				if at[0] == 'C' {
+					for o := range has[at[2:]] {
+						if !m[o] {
+							m[o] = true
+							ch = true
+						}
+					}
+				}
+			}
+		}
+	}
+	for c, m := range has {
+		for o := range m {
+			a.cellOrigins[c] = append(a.cellOrigins[c], o)
+		}
+		sort.Strings(a.cellOrigins[c])
+	}
 	for ch := true; ch; {
 		ch = false
 		for _, e := range a.Closed {
@@ -1077,4 +1115,35 @@ func baseAlloc(v ssa.Value) ssa.Value {
 		}
 	}
 	return v
+}
+
+// Origins returns the marked origins that d holds directly or through tainted
+// cells (transitively).
+func (a *Analysis) Origins(d Deps) []string {
+	out := map[string]bool{}
+	seen := map[string]bool{}
+	var visit func(at string)
+	visit = func(at string) {
+		if seen[at] {
+			return
+		}
+		seen[at] = true
+		switch at[0] {
+		case 'S':
+			out[at[2:]] = true
+		case 'C':
+			for _, o := range a.cellOrigins[at[2:]] {
+				out[o] = true
+			}
+		}
+	}
+	for at := range d {
+		visit(at)
+	}
+	var res []string
+	for o := range out {
+		res = append(res, o)
+	}
+	sort.Strings(res)
+	return res
 }
